@@ -146,6 +146,36 @@ def obligations(tier, seed):
 """
     obs.append(Ob("stored.last96", build(p_ + [R("w", 0, 2**31 - 1), R("w2", 0, 2**31 - 1)], body, setup=SETUP), "with all 96 user-defined controllers in use the 98th and 101st stored values are decoded into user-defined #93 and #96",
                   group="stored", shape="synth(MetaModule) n=96, last two stored words replaced in the written stream", symbolic="two stored words", timeout=900))
+    # an UNASSIGNED user-defined slot among the exposed ones (mapping module 0), followed by slots mapped onto negative-minimum
+    # targets: the later slots still adopt their target's range, so their stored words decode to the same values after a load
+    for ctx in ("synth", "project"):
+        p_, l_ = build_mm(0, rnd)
+        lines = list(l_) + ["mm.user_defined_controllers = 4", "mm.mappings.values[0] = MM.Mapping((1, 0))", "mm.mappings.values[2] = MM.Mapping((1, 1))",
+                            "mm.mappings.values[3] = MM.Mapping((3, 0))", "mm.update_user_defined_controllers()",
+                            "mm.set_raw('user_defined_1', r1)", "mm.set_raw('user_defined_3', r3)", "mm.set_raw('user_defined_4', r4)"]
+        code = "\n".join("    " + l for l in lines)
+        if ctx == "synth":
+            rtc = "data = save_bytes(Synth(mm))\n    m2 = load_bytes(data).module\n    d = RF.decode_synth(data)[1]"
+        else:
+            rtc = "p = Project()\n    p.attach_module(mm)\n    data = save_bytes(p)\n    m2 = load_bytes(data).modules[1]\n    d = RF.decode_project(data)['modules'][1]"
+        body = f"""
+{code}
+    if (mm.user_defined_1, mm.user_defined_3, mm.user_defined_4) != (r1, r3 - 128, r4 - 128):
+        return False
+    {rtc}
+    # written words (independent decoder): the raw values themselves
+    if d['cvals'][5:] != [r1, 0, r3, r4]:
+        return False
+    if (m2.user_defined_1, m2.user_defined_2, m2.user_defined_3, m2.user_defined_4) != (r1, 0, r3 - 128, r4 - 128):
+        return False
+    if [m2.get_raw(f"user_defined_{{k}}") for k in (1, 2, 3, 4)] != [r1, 0, r3, r4]:
+        return False
+    t3 = MM.controllers["user_defined_3"].instance_value_type(m2)
+    return (t3.min, t3.max) == (-128, 128) and m2.mappings.values[1].module == 0 and m2.mappings.values[2].controller == 1
+"""
+        obs.append(Ob(f"stored.gap.{ctx}", build(p_ + [R("r1", 0, 1024), R("r3", 0, 256), R("r4", 0, 256)], body, setup=SETUP),
+                      f"an unassigned user-defined slot (#2) followed by slots mapped onto negative-minimum targets ({ctx}): every stored word is written as it is and decodes to the same value after the load (later slots adopt their target's range)",
+                      group="stored", shape=f"{ctx}; n=4: #1 -> Amplifier.volume, #2 unassigned, #3 -> Amplifier.balance, #4 -> MultiSynth.transpose", symbolic="three stored words over their targets' raw ranges + embedded values", timeout=600))
     # no label chunks at all (the options chunk is then the LAST module-specific chunk of the MetaModule)
     for ctx in ("synth", "project"):
         p_, l_ = build_mm(3, rnd)
